@@ -61,6 +61,11 @@ def calculate_checksum_udp(packet: Packet):
     pseudo_header.extend(udp_data)
 
     calculated_checksum = ones_complement_checksum(pseudo_header)
+    # RFC 768: a computed checksum of zero is transmitted as all ones, a transmitted zero means "no checksum" (IPv4 only)
+    if calculated_checksum == bytearray(b"\x00\x00"):
+        calculated_checksum = bytearray(b"\xff\xff")
+    if packet.udp.sum == 0 and not packet.ipv6_packet:
+        return True
 
     packet_checksum = packet.udp.sum.to_bytes(2, 'big')
     logging.info(f"expected checksum: 0x{calculated_checksum.hex()}, packet checksum: 0x{packet_checksum.hex()}")
